@@ -59,7 +59,9 @@ func runGroups(e *Env) {
 	nsend := 1 + e.Choose("cfg.nsend", 12)
 	ninj := e.Choose("cfg.ninj", 25)
 	reader := []string{"ready", "slow"}[e.Choose("cfg.reader", 2)]
-	e.Cfg("router=%v sends=%d injected=%d reader=%s", router, nsend, ninj, reader)
+	nsenders := 1 + e.Choose("cfg.senders", 4)
+	lossy := !router && e.Choose("cfg.lossy", 3) == 0 // the tunnel retransmits: frames are re-packed
+	e.Cfg("router=%v sends=%d injected=%d reader=%s senders=%d lossy=%v", router, nsend, ninj, reader, nsenders, lossy)
 	s.SetConfig(func(sc *simrt.Config) {
 		sc.StickyPermille = []int{600, 0, 850}[e.Choose("cfg.sticky", 3)]
 		sc.MaxSteps = 60000
@@ -164,7 +166,7 @@ func runGroups(e *Env) {
 				} else {
 					serr = gt.Send(ge)
 				}
-				if serr != nil {
+				if serr != nil && !lossy {
 					e.Violate("C12", "send-failed", "Send(%s) failed on a lossless link: %v", ev, serr)
 				}
 				continue
@@ -209,7 +211,32 @@ func runGroups(e *Env) {
 			}
 		}
 	})
-	e.WaitDone("workload", 120*time.Second, func() bool { return done })
+	extraLeft := nsenders - 1
+	for k := 1; k < nsenders; k++ {
+		s.Spawn(fmt.Sprintf("sender%d", k), func() {
+			for i := 0; i < 1+nsend/2; i++ {
+				ev := grpEvent{Cmd: uint8(e.Choose("wl.cmd", 3)), Src: uint16(e.Choose("wl.src", 65536)), Dst: uint16(e.Choose("wl.dst", 65536))}
+				n := []int{0, 1, 2, 14, 15, 16, 17, 100, 254}[e.Choose("wl.len", 9)]
+				ev.Data = make([]byte, n)
+				for j := range ev.Data {
+					ev.Data[j] = byte(e.Choose("wl.byte", 256))
+				}
+				sent = append(sent, ev)
+				ge := knx.GroupEvent{Command: knx.GroupCommand(ev.Cmd), Source: cemi.IndividualAddr(ev.Src), Destination: cemi.GroupAddr(ev.Dst), Data: append([]byte(nil), ev.Data...)}
+				var serr error
+				if router {
+					serr = gr.Send(ge)
+				} else {
+					serr = gt.Send(ge)
+				}
+				if serr != nil && !lossy {
+					e.Violate("C12", "send-failed", "Send(%s) failed on a lossless link: %v", ev, serr)
+				}
+			}
+			extraLeft--
+		})
+	}
+	e.WaitDone("workload", 300*time.Second, func() bool { return done && extraLeft == 0 })
 	s.SleepFor(3 * time.Second)
 	// close the underlying client: the group channel must close too
 	e.Call("close", 10*time.Second, func() {
@@ -248,36 +275,57 @@ func runGroups(e *Env) {
 			rawFrames = append(rawFrames, f.CEMI)
 		}
 	}
-	if len(frames) != len(sent) {
-		e.Violate("C12", "outbound-frame-count", "%d group events were sent, %d L_Data frames left the client", len(sent), len(frames))
-	}
-	for i := 0; i < len(frames) && i < len(sent); i++ {
-		v, ev := frames[i], sent[i].image()
-		bad := ""
+	describe := func(v LDataView, raw []byte, ev grpEvent, orig grpEvent) string {
 		switch {
 		case !v.OK:
-			bad = "not a well-formed L_Data frame with an application unit"
+			return "not a well-formed L_Data frame with an application unit"
 		case v.Code != wantCode:
-			bad = fmt.Sprintf("message code %#x, expected %#x", v.Code, wantCode)
+			return fmt.Sprintf("message code %#x, expected %#x", v.Code, wantCode)
 		case v.Ctrl2&0x80 == 0:
-			bad = "destination is not flagged as a group address"
+			return "destination is not flagged as a group address"
 		case (v.Ctrl2>>4)&7 != 6:
-			bad = fmt.Sprintf("hop count %d, expected 6", (v.Ctrl2>>4)&7)
+			return fmt.Sprintf("hop count %d, expected 6", (v.Ctrl2>>4)&7)
 		case (v.Ctrl1>>2)&3 != 3:
-			bad = fmt.Sprintf("priority %d, expected low (3)", (v.Ctrl1>>2)&3)
-		case (v.Ctrl1&0x80 != 0) != (len(sent[i].Data) <= 15):
-			bad = fmt.Sprintf("standard-frame flag %v with a payload of %d bytes", v.Ctrl1&0x80 != 0, len(sent[i].Data))
+			return fmt.Sprintf("priority %d, expected low (3)", (v.Ctrl1>>2)&3)
+		case (v.Ctrl1&0x80 != 0) != (len(orig.Data) <= 15):
+			return fmt.Sprintf("standard-frame flag %v with a payload of %d bytes", v.Ctrl1&0x80 != 0, len(orig.Data))
 		case v.APCI != ev.Cmd:
-			bad = fmt.Sprintf("application code %d, expected %d", v.APCI, ev.Cmd)
+			return fmt.Sprintf("application code %d, expected %d", v.APCI, ev.Cmd)
 		case v.Src != ev.Src || v.Dst != ev.Dst:
-			bad = fmt.Sprintf("addresses %#04x -> %#04x, expected %#04x -> %#04x", v.Src, v.Dst, ev.Src, ev.Dst)
+			return fmt.Sprintf("addresses %#04x -> %#04x, expected %#04x -> %#04x", v.Src, v.Dst, ev.Src, ev.Dst)
 		case !reflect.DeepEqual(v.Data, ev.Data):
-			bad = fmt.Sprintf("payload [%d]%x, expected [%d]%x", len(v.Data), clipBytes(v.Data), len(ev.Data), clipBytes(ev.Data))
+			return fmt.Sprintf("payload [%d]%x, expected [%d]%x", len(v.Data), clipBytes(v.Data), len(ev.Data), clipBytes(ev.Data))
 		}
-		if bad != "" {
-			e.Violate("C12", "outbound-frame-wrong", "Send(%s) produced cEMI %x: %s", sent[i], clipBytes(rawFrames[i]), bad)
+		return ""
+	}
+	// Every distinct frame on the wire must be the exact image of one Send (with several senders
+	// the order is free, so frames and events are matched as multisets; a retransmission that
+	// differs from its first transmission shows up as a frame nobody sent).
+	used := make([]bool, len(sent))
+	for i, v := range frames {
+		found := false
+		for j, ev := range sent {
+			if used[j] {
+				continue
+			}
+			if describe(v, rawFrames[i], ev.image(), ev) == "" {
+				used[j], found = true, true
+				break
+			}
+		}
+		if !found {
+			why := "no Send of this run matches it"
+			if nsenders == 1 && !lossy && i < len(sent) {
+				why = describe(v, rawFrames[i], sent[i].image(), sent[i])
+				e.Violate("C12", "outbound-frame-wrong", "Send(%s) produced cEMI %x: %s", sent[i], clipBytes(rawFrames[i]), why)
+			} else {
+				e.Violate("C12", "outbound-frame-wrong", "cEMI %x left the client: %s (events sent: %d, distinct frames: %d)", clipBytes(rawFrames[i]), why, len(sent), len(frames))
+			}
 			break
 		}
+	}
+	if !lossy && len(frames) != len(sent) {
+		e.Violate("C12", "outbound-frame-count", "%d group events were sent, %d distinct L_Data frames left the client", len(sent), len(frames))
 	}
 	// inbound events: what must surface follows from what the client's socket read, in that order
 	// (lossless, stop-and-wait: every tunnelling request read is in sequence and accepted once)
